@@ -1,12 +1,18 @@
 #!/bin/sh
-# tools/try_mutant.sh <patch.diff> <prop> [<prop> ...]  — apply a seeded change to /repo, run the quick checks, undo
-patch="$1"; shift
-cd /repo || exit 2
-git apply --check "$patch" || { echo "patch does not apply"; exit 2; }
-git apply "$patch"
+# tools/try_mutant.sh <patch.diff> <prop> [<prop> ...] — try a seeded change WITHOUT touching /repo or the committed
+# evidence: a scratch git worktree of /repo gets the patch, a private copy of the Coq tree is rebuilt against it
+# (VERIF_REPO / VERIF_COQ / VERIF_OUT), the quick checks run, everything is removed again.
+patch="$(readlink -f "$1")"; shift
+tag="mt_$$"
+wt="/tmp/$tag"; priv="/verif/.scratch/$tag"
+git -C /repo worktree add -q --detach "$wt" HEAD || exit 2
+cleanup() { git -C /repo worktree remove --force "$wt" 2>/dev/null; rm -rf "$priv"; }
+trap cleanup EXIT INT TERM
+( cd "$wt" && git apply "$patch" ) || { echo "patch does not apply"; exit 2; }
+mkdir -p "$priv/out"
+rsync -a --exclude cases /verif/coq/ "$priv/coq/"
 cd /verif
 for p in "$@"; do
-  ./check "$p" --tier quick 2>&1 | grep -E "VIOLATION|-> OK|-> VIOLATION" | sed "s/^/[$p] /"
+  VERIF_REPO="$wt" VERIF_COQ="$priv/coq" VERIF_OUT="$priv/out" ./check "$p" --tier quick 2>&1 \
+    | grep -E "VIOLATION|-> OK|KNOWN-FINDING" | cut -c1-300 | sed "s/^/[$p] /"
 done
-git -C /repo checkout -- .
-rm -f /verif/replays/*.json
